@@ -603,6 +603,91 @@ fn run_history(bytes: &[u8], ctx: &mut Ctx, want_log: bool, log: &mut Vec<String
         log.push(format!("{} key space", if g.large { "large" } else { "small" }));
     }
 
+    // ---- optional prologue: a degenerate chain. Every insert aims at the leaf
+    // that was inserted last, so the tree's height equals the number of inserts;
+    // ordinary histories (locations uniform over the existing leaves, Auto
+    // following hash bits) stay logarithmic and never reach the depths at which
+    // lineage walks, recursion limits or proof lengths could matter. The chain
+    // keys live in their own range (1000..), the following operations pick
+    // present keys uniformly, i.e. mostly deep ones.
+    let chain = match g.s.weighted(&[38, 1, 1]) {
+        0 => 0,
+        1 => 60 + g.s.below(16),
+        _ => 2 + g.s.below(139),
+    };
+    if chain > 0 {
+        let hashes_first = g.s.bool();
+        let mut side_bits = g.s.u32();
+        let mut last: Option<i64> = None;
+        for i in 0..chain {
+            let k = 1000 + i as i64;
+            let v = g.s.below(4) as i64;
+            let h = derived_hash(k, v);
+            let loc = match last {
+                None => InsertLocation::Auto {},
+                Some(lk) => match guard(|| blob.get_key_index(KeyId(lk))) {
+                    Ok(Ok(index)) => {
+                        let side = if side_bits & 1 == 1 { Side::Right } else { Side::Left };
+                        side_bits = side_bits.rotate_right(1);
+                        InsertLocation::Leaf { index, side }
+                    }
+                    other => {
+                        return Err(Failure {
+                            sig: "C18:chain-prologue:key-index-unavailable".into(),
+                            msg: format!("chain prologue: get_key_index({lk}) of the key inserted just before = {other:?}"),
+                        })
+                    }
+                },
+            };
+            match guard(|| blob.insert(KeyId(k), ValueId(v), &to_hash(&h), loc)) {
+                Ok(Ok(_)) => {
+                    model.insert(k, (v, h));
+                    last = Some(k);
+                }
+                other => {
+                    ctx.known_or_fail("C18:chain-prologue:legal-insert-fails", || {
+                        format!("chain prologue: insert #{i} (fresh key {k}, fresh hash, at the leaf inserted last) on a chain of depth {i} = {other:?}")
+                    })?;
+                    break;
+                }
+            }
+        }
+        if hashes_first {
+            // bring the working blob's hashes clean, so that later modifications
+            // deep in the chain have to dirty the whole lineage again
+            if let Ok(Err(e)) | Err(e) = guard(|| blob.calculate_lazy_hashes()).map(|r| r.map_err(|e| e.to_string())) {
+                return Err(Failure {
+                    sig: "C18:chain-prologue:recompute-hashes-fails".into(),
+                    msg: format!("chain prologue: calculate_lazy_hashes() on a chain of depth {chain} failed: {e}"),
+                });
+            }
+        }
+        fp.write(b"chain").write_u64(chain as u64).write_u64(u64::from(hashes_first));
+        ctx.label(format!(
+            "chain-prologue:depth-{}",
+            match chain {
+                0..=31 => "2-31",
+                32..=63 => "32-63",
+                64..=66 => "64-66",
+                67..=99 => "67-99",
+                _ => "100+",
+            }
+        ));
+        if want_log {
+            log.push(format!("chain prologue: {chain} inserts each at the leaf inserted last (keys 1000..), hashes recomputed afterwards: {hashes_first}"));
+        }
+        prev = match check_state(&blob, &model) {
+            Ok(o) => o,
+            Err((inv, msg)) => {
+                let sig = format!("C18:chain-prologue:ok-but-{inv}");
+                ctx.known_or_fail(&sig, || format!("after a chain of {chain} legal inserts (each at the leaf inserted last): {msg}"))?;
+                return Ok(());
+            }
+        };
+    }
+
+    // the per-step oracle is linear in keys x depth: keep chain histories short
+    let nops = if chain > 0 { nops.min(16) } else { nops };
     let mut executed = 0usize;
     let mut failed_at: Option<usize> = None;
     let mut nt_failed_then_more = false;
